@@ -171,7 +171,15 @@ struct World {
 	}
 
 	// ---- ScopedRemover commands (top level only) ----
-	std::map<int, std::unique_ptr<SR>> rems;
+	// removers are constructed over storage that held other bytes before (C20: no result may depend on what the
+	// memory held; e.g. a mutex member that is neither named in the constructor nor self-initialising)
+	struct SRDel { void operator()(SR * p) const { p->~SR(); ::operator delete((void *)p); } };
+	template <typename ...A> static SR * newSR(A && ...a) {
+		void * mem = ::operator new(sizeof(SR));
+		std::memset(mem, 0xA5, sizeof(SR));
+		return new (mem) SR(std::forward<A>(a)...);
+	}
+	std::map<int, std::unique_ptr<SR, SRDel>> rems;
 	std::map<int, int> rtarget;
 	void execRemover(const Cmd & c) {
 		const std::string & op = c.op();
@@ -179,7 +187,7 @@ struct World {
 		bool has = rems.count(r) > 0;
 		if(op == "rnew") {
 			if(has) { res("skip"); return; }
-			rems[r].reset(new SR(*lists[c.n(2)])); rtarget[r] = (int)c.n(2); res("unit");
+			rems[r].reset(newSR(*lists[c.n(2)])); rtarget[r] = (int)c.n(2); res("unit");
 		}
 		else if(op == "rappend" || op == "rprepend" || op == "rinsert") {
 			if(!has) { res("skip"); return; }
@@ -193,12 +201,21 @@ struct World {
 			res("h" + std::to_string(id));
 		}
 		else if(op == "rremove") { if(!has) { res("skip"); return; } res(rems[r]->remove(handleOf(c.n(2))) ? "true" : "false"); }
+		else if(op == "rremoveheld") {
+			// the user holds the node (handle.lock() is public API), detaches the listener directly, then asks the
+			// remover: "reports whether it was attached" must be false although the remover still tracked the handle
+			auto hd = handleOf(c.n(3));
+			auto keep = hd.lock();
+			lists[c.n(2)]->remove(hd);
+			if(!has) { res("skip"); return; }
+			res(rems[r]->remove(hd) ? "true" : "false");
+		}
 		else if(op == "rreset") { if(!has) { res("skip"); return; } rems[r]->reset(); res("unit"); }
 		else if(op == "rtarget") { if(!has) { res("skip"); return; } rems[r]->setCallbackList(*lists[c.n(2)]); rtarget[r] = (int)c.n(2); res("unit"); }
 		else if(op == "rmovector") {
 			int src = (int)c.n(2);
 			if(has || !rems.count(src)) { res("skip"); return; }
-			rems[r].reset(new SR(std::move(*rems[src]))); rtarget[r] = rtarget[src]; res("unit");
+			rems[r].reset(newSR(std::move(*rems[src]))); rtarget[r] = rtarget[src]; res("unit");
 		}
 		else if(op == "rmoveassign") {
 			int src = (int)c.n(2);
